@@ -3,6 +3,7 @@ from ..core import HarnessError
 
 _BY_PROP = {
     'C08': ('ptype', 'PtypeScenario'),
+    'C09': ('fft', 'FftScenario'),
     'C10': ('purity', 'PurityScenario'),
 }
 _CACHE = {}
